@@ -1727,7 +1727,7 @@ void process_header_stack(mmd_engine * e) {
 
 void process_table_to_link(mmd_engine * e, token * t) {
 	// Is there a caption
-	if (table_has_caption(t)) {
+	if (table_has_caption(t, e->dstr->str)) {
 		token * temp_token = t->next->child;
 
 		if (temp_token->next &&
@@ -2745,7 +2745,25 @@ void trim_trailing_whitespace_d_string(DString * d) {
 }
 
 
-bool table_has_caption(token * t) {
+/// A token that holds nothing but blanks
+static bool token_is_blank(token * t, const char * source) {
+	if (t->type != TEXT_PLAIN) {
+		return false;
+	}
+
+	for (size_t i = t->start; i < t->start + t->len; ++i) {
+		if (!char_is_whitespace(source[i])) {
+			return false;
+		}
+	}
+
+	return true;
+}
+
+
+/// Is the table followed by a caption line -- `[caption]`, `[caption][label]` or
+/// `[caption] [label]` and nothing else on that line?
+bool table_has_caption(token * t, const char * source) {
 
 	if (t->next && t->next->type == BLOCK_PARA) {
 		t = t->next->child;
@@ -2758,8 +2776,17 @@ bool table_has_caption(token * t) {
 				return false;
 			}
 
-			if (t && t->next &&
-					t->next->type == PAIR_BRACKET) {
+			if (t && t->next && (t->next->type == PAIR_BRACKET) && token_is_blank(t, source)) {
+				// `[caption] [label]`
+				t = t->next;
+			}
+
+			while (t && (t->type == PAIR_BRACKET)) {
+				t = t->next;
+			}
+
+			// Text after the brackets makes this an ordinary paragraph
+			while (t && token_is_blank(t, source)) {
 				t = t->next;
 			}
 
@@ -2768,13 +2795,7 @@ bool table_has_caption(token * t) {
 				return true;
 			}
 
-			if (t && t->next &&
-					((t->next->type == TEXT_NL) ||
-					 (t->next->type == TEXT_LINEBREAK))) {
-				t = t->next;
-			}
-
-			if (t && t->next == NULL) {
+			if (((t->type == TEXT_NL) || (t->type == TEXT_LINEBREAK)) && (t->next == NULL)) {
 				return true;
 			}
 		}
